@@ -56,9 +56,10 @@ class Selector(metaclass=InternedMC):
             if v.capture in captures:
                 cap = captures[v.capture]
                 for value in cap.values:
-                    match = v.value == value or (
-                        isinstance(v.value, MatchFunction) and v.value.fn(value)
-                    )
+                    if isinstance(v.value, MatchFunction):
+                        match = v.value.fn(value)
+                    else:
+                        match = v.value == value
                     if not match:
                         return False
         return True
@@ -794,11 +795,15 @@ def _resolve(selector, env, cnt):
             real_fn = _dig(fn.__func__)
             selfname = inspect.getfullargspec(real_fn).args[0]
             el = el.clone(name=real_fn)
+            # The receiver is matched by identity: it may define its own
+            # equality, and it need not be hashable.
             captures.append(
                 Element(
                     name=selfname,
                     capture=selfname,
-                    value=fn.__self__,
+                    value=MatchFunction(
+                        lambda x, receiver=fn.__self__: x is receiver
+                    ),
                 )
             )
         else:
